@@ -175,15 +175,29 @@ def body_kill(rec, c):
         if prev.get("killed") and prev.get("treat_count", 0) == 0:
             # killed before completing a step in that lifetime: the file on disk is the one it started from
             expected = prev["carry"].get("inflight_at_last_step", [])
-        issued = cur.get("issued_all", [])[: len(expected)]
+        # a restart with fewer steps left than recorded jobs re-issues only as many as it needs (the others are surplus)
+        remaining = max(0, c["segments"][k]["steps"] - cur.get("cstep_start", 0))
+        m = min(len(expected), remaining)
+        issued = cur.get("issued_all", [])[:m]
         want = sorted((tuple(e["ens"]), tuple(str(p) for p in e["paths"])) for e in expected)
         got = sorted((tuple(i[0]), tuple(i[1])) for i in issued)
         if expected:
             nkill_inflight += 1
             if k >= 2:
                 chain_of_restarts = True
-        rec.check(got == want, f"C06:in-flight-jobs-not-reissued:{'after-earlier-restart' if k >= 2 else 'first-restart'}",
-                  f"restart {k}: in flight at the stop {want}, first jobs issued {got}\n  case={c}")
+        if m < len(expected):
+            rec.cls("kill:restart-with-fewer-steps-left-than-recorded-jobs")
+            pool = list(want)
+            ok = len(got) == m
+            for g in got:
+                if g in pool:
+                    pool.remove(g)
+                else:
+                    ok = False
+        else:
+            ok = got == want
+        rec.check(ok, f"C06:in-flight-jobs-not-reissued:{'after-earlier-restart' if k >= 2 else 'first-restart'}",
+                  f"restart {k}: in flight at the stop {want}, first jobs issued {got} (steps left {remaining})\n  case={c}")
     nt = nkill_inflight >= 1
     rec.case(key=c, nontrivial=nt, classes=["kill", f"workers={c['spec']['workers']}", "reissue-after-earlier-restart" if chain_of_restarts else "reissue-first"],
              sample={"spec": c["spec"], "segments": [{k: v for k, v in s.items() if k != "schedule"} for s in c["segments"]]} if nt and len(rec.samples) < 2 else None)
